@@ -26,6 +26,18 @@ def parsePaving (s : String) : Option Paving :=
       | _ => none
     pure ⟨items.filterMap (·.1), items.filterMap (·.2)⟩
 
+/-- sample points of the box: every combination of lower bound / midpoint / upper bound on the parameters
+    (coordinates outside `vars`), midpoint on the variables; at most 27 points -/
+def paramSamples (e : Box) (vars : List Nat) : List (List Rat) :=
+  let mid := Verdict.midPoint e
+  let choices : List (List Rat) := e.zipIdx.map fun (q : Itv × Nat) =>
+    if vars.contains q.2 then [mid.getD q.2 0] else
+      match q.1 with
+      | .mk (.fin a) (.fin b) => if a == b then [a] else [a, (a + b) / 2, b]
+      | _ => [mid.getD q.2 0]
+  let all := choices.foldr (fun c acc => c.flatMap fun t => acc.map (t :: ·)) [[]]
+  all.take 27
+
 /-- every box of a paving with its verdict (C18, resumed search) -/
 def parseItems (s : String) : Option (List Item) :=
   if s == "-" then some [] else
@@ -134,6 +146,8 @@ def opsSolver (op : String) (ins outs : List String) : Option String :=
     if zs.any (fun p => zs.any fun q => Verdict.refutedTwo eqs e vars p q) then
       pure "FAIL two-known-zeros-in-one-existence-box" else
     let square := vars.length == e.length
+    if (paramSamples e vars).any (fun w => Verdict.refutedSlice eqs e vars w 3) then
+      pure "FAIL no-zero-in-the-existence-box-for-a-parameter-value" else
     match Verdict.findCert eqs e u vars 5 with
     | some k => pure s!"ok solution {if square then "square" else "under-constrained"} exactly-one-zero-certified shrink={k}"
     | none =>
